@@ -191,6 +191,11 @@ def run(ctx):
                     z = is_zero_test(br[2], arg)
                     if z and ((z == 'ne') == branch_truth(br)):
                         guarded = True
+                    if same_value(br[2], arg) and strip(br[2])[0] != 'const':
+                        # `match size { 0 => .., n => read(n) }`: a switch on the value itself
+                        t = body.blocks[br[1]]['term']
+                        if 0 in t['vals'] and br[3] != 0:
+                            guarded = True
                 if not guarded:
                     ok_all = False
             ctx.check(ok_all and npaths > 0, 'R13.4', '%s:var0#%d' % (body.path, ordinal),
@@ -231,8 +236,13 @@ def run(ctx):
             X = None
             if good:
                 a = var[0][1]
+                csub = None
                 if a[0] == 'bin' and a[1] == 'Sub' and strip(a[3])[0] == 'const':
                     X, K = a[2], strip(a[3])[1]
+                elif a[0] == 'call' and re.search(r'::checked_sub$', a[1]) and len(a[3]) == 2 and fold(a[3][1])[0] == 'const':
+                    # `match length.checked_sub(K) { None => Err(..), Some(n) => read_payload(n) }`: the subtraction and its guard in one
+                    X, K = a[3][0], fold(a[3][1])[1]
+                    csub = a
                 else:
                     good = False
             hdr = sum(consts)
@@ -249,6 +259,8 @@ def run(ctx):
                     if e[0] == 'bin' and e[1] == 'Lt' and same_value(e[2], X) and strip(e[3])[0] == 'const':
                         if strip(e[3])[1] == K and not branch_truth(br):
                             g = True
+                    if csub is not None and e[0] == 'discr' and strip(e[1]) == csub and br[3] == 1:
+                        g = True        # the Some arm of checked_sub(K): length >= K
                 ctx.check(g, 'R13.3', key + ':guard',
                           'Ok(%s) path: the subtraction (length - %d) is preceded on the path by the failed test length < %d'
                           % (kind, K, K), where(rd, reads[-1][1].block),
@@ -264,6 +276,8 @@ def run(ctx):
         elif rk == 'err':
             # an explicit Err: must be the true edge of a Lt(length, K) guard and no payload read after it
             lt = [br for br in path_branches(st) if strip(br[2])[0] == 'bin' and strip(br[2])[1] == 'Lt' and branch_truth(br)]
+            lt += [br for br in path_branches(st) if strip(br[2])[0] == 'discr' and strip(strip(br[2])[1])[0] == 'call'
+                   and strip(strip(br[2])[1])[1].endswith('::checked_sub') and br[3] == 0]
             if lt:
                 n_guard_err += 1
                 ctx.check(not var, 'R13.3', 'read:err:%d' % path[-3] if len(path) > 2 else 'read:err',
